@@ -631,11 +631,17 @@ func (p *pp) handleMethods(verb rune) (handled bool) {
 			return
 
 		case i.SafeMessager:
-			handled = true
-			defer p.catchPanic(p.arg, verb, "SafeMessager")
-			defer p.startSafeOverride().restore()
-			p.fmtString(v.SafeMessage(), verb)
-			return
+			// Like Stringer below: only for the verbs that accept a
+			// string. For any other verb the bad verb report would
+			// print the operand's own fields as if they were safe.
+			switch verb {
+			case 'v', 's', 'x', 'X', 'q':
+				handled = true
+				defer p.catchPanic(p.arg, verb, "SafeMessager")
+				defer p.startSafeOverride().restore()
+				p.fmtString(v.SafeMessage(), verb)
+				return
+			}
 
 		case error:
 			if redactErrorFn != nil {
